@@ -157,6 +157,7 @@ def gen_case(seed, tier):
         config["i_domain"] = cfg.choice([None, "di", "do"]) if bdir != "o" else None
         config["o_domain"] = cfg.choice([None, "do", "di"]) if bdir != "i" else None
     config["edges"] = {dn: cfg.choice(["pos", "neg"]) for dn in DOMS}
+    config["via_renamer"] = bool(config.get("buffer") == "FFBuffer" and fl.random() < 0.25)
     config["vendor"] = ({"platform": cfg.choice(["ice40", "ecp5", "machxo2", "gowin", "xc7", "xc6s", "xc2v", "xc3s", "xc3se", "xc3sa", "altera",
                                                   "quicklogic"]),
                          "kind": cfg.choice(["se", "se", "diff"]), "dir": cfg.choice(["i", "o", "io"]), "width": cfg.choice([1, 2, 3]),
@@ -431,6 +432,20 @@ def run_case(case):
             kw["i_domain"] = config["i_domain"]
         if config.get("o_domain"):
             kw["o_domain"] = config["o_domain"]
+        if config.get("via_renamer"):
+            # the same buffer built on private domain names and moved to the configured domains by a DomainRenamer - also when that
+            # sends both of its domains to one
+            kw = {}
+            ren = {}
+            if bdir != "o":
+                kw["i_domain"] = "ri"
+                ren["ri"] = i_dom
+            if bdir != "i":
+                kw["o_domain"] = "ro"
+                ren["ro"] = o_dom
+            P["via_renamer"] = 1
+            if i_dom is not None and i_dom == o_dom:
+                P["renamer_merges_two_domains"] = 1
         buf = io.FFBuffer(bdir, port, **kw)
     else:
         i_dom = o_dom = None
@@ -443,7 +458,11 @@ def run_case(case):
     if comp:
         buf2 = io.FFBuffer("o", ports[comp["base"]][comp["lo"]:comp["hi"]], o_domain=comp["domain"])
         P["companion_buffer"] = 1
-    run = ManualRun(buf, domains, sched_mode=case["sched"]["mode"], sched_seed=case["sched"]["seed"],
+    dut_ = buf
+    if ff and config.get("via_renamer"):
+        from amaranth.hdl import DomainRenamer as _DR
+        dut_ = _DR(ren)(buf)
+    run = ManualRun(dut_, domains, sched_mode=case["sched"]["mode"], sched_seed=case["sched"]["seed"],
                     extra_submodules=[buf2] if buf2 is not None else ())
     mask_n = (1 << n) - 1
 
